@@ -27,7 +27,26 @@ STATE = {'Wait': 'Wait', 'Start': 'Start', 'Fin': 'Fin', 'FinMod': 'FinMod', 'Fa
 # --------------------------------------------------------------------------- provider part
 class ProviderSession:
     def __init__(self, **kw):
-        self.pair = Pair(**kw)
+        # the worker threads of the operation registries look at their queue every 10 ms instead of every second: the
+        # module `queue` seen by sdc11073.provider.sco is a shim whose Queue shortens the timeout of get(); the code of
+        # the worker is untouched
+        import queue
+        import types
+
+        from verif.mdibharness import _load_repo
+        _load_repo()
+        import sdc11073.provider.sco as sco
+
+        class FastQueue(queue.Queue):
+            def get(self, block=True, timeout=None):
+                return super().get(block, None if timeout is None else min(timeout, 0.01))
+
+        self._sco, self._sco_queue = sco, sco.queue
+        sco.queue = types.SimpleNamespace(Queue=FastQueue, Empty=queue.Empty, Full=queue.Full)
+        try:
+            self.pair = Pair(**kw)
+        finally:
+            sco.queue = self._sco_queue
         self.proj = Projector(['vmd', 'ch', 'm1', 'pc'], [])
         self.log_pos = len(self.pair.net.log)
         self.n = 0
@@ -76,10 +95,39 @@ class ProviderSession:
         self.log_pos = len(self.pair.net.log)
         return out
 
+    def _idle(self, how):
+        """Let the worker run its time-out housekeeping once, with a time-out handler that raises (or not)."""
+        import time
+        op = self.pair.provider.get_operation_by_handle(OPS['set_string'])
+        called = []
+
+        def handler(_op):
+            called.append(1)
+            op._timeout_handler = None            # noqa: SLF001  once
+            op.last_called_time = None
+            if how == 'raises':
+                raise RuntimeError('scripted error in the time-out handler of the application')
+
+        op._operation_entity.descriptor.InvocationEffectiveTimeout = 0.001   # noqa: SLF001
+        op._timeout_handler = handler             # noqa: SLF001
+        op.last_called_time = time.time() - 10
+        t_end = time.time() + 3
+        while not called and time.time() < t_end:
+            time.sleep(0.005)
+        if not called:
+            # (a worker that died in an EARLIER idle phase shows up in the request that follows)
+            op._timeout_handler = None            # noqa: SLF001
+            op.last_called_time = None
+        time.sleep(0.03)
+
     def run(self, beh):
         import time
         trace = [{'act': 'Init', 'post': self.proj.project(self.pair.mdib)}]
+        idled = False
         for i, rec in enumerate(beh):
+            if rec.get('idle', 'none') != 'none':
+                self._idle(rec['idle'])
+                idled = True
             kind = KINDS[(i + self.n) % len(KINDS)]
             handle = OPS[kind] if rec['known'] else 'no_such_operation'
             if rec['known']:
@@ -89,13 +137,21 @@ class ProviderSession:
             before = self.proj.project(self.pair.mdib)
             fut = self._invoke(kind, handle)
             try:
-                result = fut.result(timeout=10)
+                result = fut.result(timeout=3 if idled else 10)
             except Exception as ex:  # noqa: BLE001
-                raise MachineryError(f'operation future did not complete: {ex!r}') from ex
+                if not idled:
+                    raise MachineryError(f'operation future did not complete: {ex!r}') from ex
+                # the transaction never reached a final state: recorded as it is (response Wait, the reports seen)
+                trace.append({'act': 'Request', 'kind': kind, 'known': rec['known'], 'queued': rec['queued'],
+                              'outcome': rec['outcome'], 'idle': rec.get('idle', 'none'),
+                              'tx': self.pair.provider._transaction_id, 'resp': 'Wait',   # noqa: SLF001
+                              'resp_error': False, 'reports': self._reports(), 'result_state': 'none',
+                              'result_parts': [], 'unchanged': self.proj.project(self.pair.mdib) == before})
+                continue
             time.sleep(0.005)   # let the worker thread finish sending (reports are synchronous on the loop-back)
             resp = result.set_response.InvocationInfo
             out = {'act': 'Request', 'kind': kind, 'known': rec['known'], 'queued': rec['queued'],
-                   'outcome': rec['outcome'], 'tx': resp.TransactionId, 'resp': resp.InvocationState.value,
+                   'outcome': rec['outcome'], 'idle': rec.get('idle', 'none'), 'tx': resp.TransactionId, 'resp': resp.InvocationState.value,
                    'resp_error': resp.InvocationError is not None,
                    'reports': [r for r in self._reports()],
                    'result_state': result.InvocationInfo.InvocationState.value,
@@ -222,7 +278,19 @@ def check(run, replay_path=None):
     import random
     rnd = random.Random(run.seed)
     rnd.shuffle(pbehs)
-    pbehs = pbehs[:run.pick(60, 1200)]
+    # an idle phase costs real time (the worker has to come round): few behaviours with exactly one idle phase that is
+    # followed by a queued request, the rest without
+    plain = [b for b in pbehs if all(r['idle'] == 'none' for r in b)]
+    idle = [b for b in pbehs if sum(r['idle'] != 'none' for r in b) == 1
+            and any(r['idle'] != 'none' and i + 1 < len(b) + 1 and r['known'] and r['queued'] for i, r in enumerate(b))]
+    n_idle = run.pick(8, 120)
+    idle_r = [b for b in idle if any(r['idle'] == 'raises' for r in b)][:n_idle // 2]
+    idle_q = [b for b in idle if any(r['idle'] == 'quiet' for r in b)][:n_idle // 2]
+    if not plain or not idle_r or not idle_q:
+        raise MachineryError('provider behaviours: missing a class of behaviours (plain / idle quiet / idle raises)')
+    pbehs = idle_r + idle_q + plain[:run.pick(52, 1080)]
+    run.note('provider_behaviours', {'plain': len(pbehs) - len(idle_r) - len(idle_q), 'idle_raises': len(idle_r),
+                                     'idle_quiet': len(idle_q)})
     ptraces = []
     for i, beh in enumerate(pbehs):
         ses = ProviderSession(async_mgr=bool(i % 2))
